@@ -50,6 +50,10 @@ CHECKS = {
          "Stateful model-based generation: invariants (link consistency, model-equal arrivals at every node, liveness under GC) are checked after every step of every generated history. Exploration only.",
          "Trusted: the topology/liveness model in props/c15.py; CPython refcounting + gc.collect() as the GC model; zip backlog rule (0..K tuples at an edit, 1..K at an update).",
          "DESIGN.md section 4 C15"),
+ "C18": ("Hypothesis-generated start/stop/advance/finish histories against instrumented subclasses of the sources on the virtual loop; invariants over the event log (active loops <= 1, no cycle while stopped, exactly-once in-order delivery, pull-after-finish)",
+         "Generated-history search: start and stop are placed at every suspension point of the polling loop (sleep, back-pressured emit, before the loop first runs) because the harness owns the loop. Exploration only.",
+         "Trusted: virtual loop; the run()/_run() override points as observation points; iterables are iterators.",
+         "DESIGN.md section 4 C18"),
 }
 NOT_YET = "check not built yet in this session (the property is decidable with this technique; see DESIGN.md section 4)"
 
